@@ -398,7 +398,7 @@ Proof. exact ex_replay_decodes. Qed.
    The abstraction [vviews] is, per file, what the INDEPENDENT DECODER reads: firstn sz (chain_bytes g im l), and the
    handle's position. *)
 From FatVerif Require Import Model.Time Model.VolSession Model.VolSession2 Proofs.VolDirProofs Proofs.VolSessionProofs
-  Proofs.VolSession2Proofs Proofs.VolSession2Examples.
+  Proofs.VolSession2Proofs Proofs.VolDirFormat Proofs.VolSessionExamples Proofs.VolSession2Examples.
 
 (* one call on handle [i]: it refines the byte-array machine on the decoder's content of file i; every other file keeps its
    decoded content; the invariant (in particular pairwise disjointness) is kept with the ghost of handle i updated; the
@@ -447,6 +447,15 @@ Example C02_image_interleaved_example_hyps :
   vgeom_ok ex_g /\ MVolInv ex_g ex_im ex_fi [empty_file; empty_file] [(0, []); (0, [])] /\
   Forall (fun io => op_ok (snd io)) ex2_mops.
 Proof. split; [exact ex_geom_ok|]. split; [exact ex2_mvol_inv|exact ex2_mops_ok]. Qed.
+
+(* ... and the session invariant [RunInv]: it holds right after mount (Props/C04.v C04_session2_start) and is kept by every
+   create_file (C04_session2_create_keeps_inv); here the state after the two creates on the 64-sector image of Props/C06.v *)
+Example C02_image_interleaved_session_example_hyps :
+  let g := parse_geom ex_vol_im in
+  exists st1 gs es ls,
+    s2_creates ex_U ex_O {| s2_im := ex_vol_im; s2_fi := ex_sfi; s2_hs := [] |} ex2_reqs = Some st1 /\
+    RunInv g ex_vol_im [] st1 gs es ls /\ length gs = 2%nat /\ length (s2_hs st1) = 2%nat.
+Proof. exact ex2_run_inv. Qed.
 
 Example C02_image_interleaved_example :
   let '((im', fi', hs'), rs) := mvol_run ex_g (ex_im, ex_fi, [empty_file; empty_file]) ex2_mops in
